@@ -234,6 +234,10 @@ std::optional<size_t> SocketTlsImpl::Receive(
   }
 
   assert(timeout.count() >= 0); // unlimited timeout performs full handshake and waits for receive
+  if((lastError == SSL_ERROR_WANT_READ) && SSL_is_init_finished(ssl.get())) {
+    // no user data within the timeout; a subsequent send must not wait for readable first
+    lastError = SSL_ERROR_NONE;
+  }
   return {std::nullopt};
 }
 
